@@ -106,10 +106,17 @@ func (t *cTxn) Encstore() datastore.Blockstore   { return t.enc }
 var cCur *cTxn
 var cNext int
 
+// cLowRank: the next block stored through cPutBlock gets a CID that sorts before all others (symgo only)
+var cLowRank bool
+
 func cPutBlock(ctx context.Context, bs datastore.Blockstore, block interface{ GenerateNode() ipld.Node }) (cidlink.Link, error) {
 	st := bs.(*cStore)
 	cNext++
 	c := vFakeCid(cNext, cNext)
+	if cLowRank {
+		c = vFakeCid(0, cNext)
+		cLowRank = false
+	}
 	st.cids = append(st.cids, c)
 	st.objs = append(st.objs, block)
 	return cidlink.Link{Cid: c}, nil
@@ -280,6 +287,73 @@ func VerifH_C11_History() {
 	step(createCtx, w1, "c.", "create")
 	step(updateCtx, w2, "u.", "update")
 	vCover("history")
+}
+
+// VerifH_C11_MixedHeads — a field whose Merkle clock has two heads, one written under encryption on this node and one
+// plaintext block merged from a peer that never had the key (it starts its own history of the field), in either
+// order of their CIDs: the next local write still inherits the encryption.
+// conf: doc (1: document-level encryption, 0: field-level on f)
+func VerifH_C11_MixedHeads() {
+	docEnc := vConfInt("doc") != 0
+	var encFields []string
+	if !docEnc {
+		encFields = []string{"f"}
+	}
+	t := cNewTxn()
+	base := datastore.CtxSetTxn(context.Background(), t)
+	createCtx := encryption.SetContextConfigFromParams(base, docEnc, encFields)
+	updateCtx, _ := encryption.EnsureContextWithEncryptor(base)
+	dsKey := keys.DataStoreKey{CollectionShortID: 1, DocID: cDocID, FieldID: "2"}
+	reg := crdt.NewLWW(t.data, "sv1", dsKey, "f")
+	s0, s1 := vU8("secret"), vU8("secret")
+	a1, _, err := AddDelta(createCtx, reg, &crdt.LWWDelta{DocID: []byte(cDocID), FieldName: "f", SchemaVersionID: "sv1", Data: []byte{s0, s1}})
+	vAssert(err == nil, "add-delta-no-error")
+	if err != nil {
+		return
+	}
+	// the peer's plaintext root block of the same field, stored and registered as a head the way ProcessBlock does
+	peerFirst := vBool("peer-head-sorts-first")
+	var b1 cidlink.Link
+	for k := 0; k < 256; k++ {
+		if vSymbolic() {
+			cLowRank = peerFirst
+		}
+		peer := New(&crdt.LWWDelta{DocID: []byte(cDocID), FieldName: "f", SchemaVersionID: "sv1", Priority: 1, Data: []byte{'p', byte(k)}}, nil)
+		b1, err = putBlock(base, t.bs, peer)
+		vAssert(err == nil, "peer-block-stored")
+		if err != nil {
+			return
+		}
+		// natively the peer's value is searched until the real CIDs stand in the wanted order
+		if vSymbolic() || (b1.Cid.KeyString() < a1.Cid.KeyString()) == peerFirst {
+			break
+		}
+	}
+	hs := NewHeadSet(t.head, reg.HeadstorePrefix())
+	vAssert(hs.Write(base, b1.Cid, 1) == nil, "peer-head-written")
+	hl, _, herr := hs.List(base)
+	vAssert(herr == nil && len(hl) == 2, "two-heads")
+	vObserve("first-head-is-peer", len(hl) == 2 && hl[0] == b1.Cid)
+	// the next local write
+	n0, n1 := vU8("secret"), vU8("secret")
+	payload := []byte{n0, n1}
+	lnk, evBytes, err := AddDelta(updateCtx, reg, &crdt.LWWDelta{DocID: []byte(cDocID), FieldName: "f", SchemaVersionID: "sv1", Data: payload})
+	vAssert(err == nil, "add-delta-no-error")
+	if err != nil {
+		return
+	}
+	stored := cStoredBlock(t, lnk)
+	vAssert(stored != nil, "block-stored")
+	if stored == nil {
+		return
+	}
+	vCover("mixed")
+	vAssert(len(stored.Heads) == 2, "both-heads-are-parents")
+	vAssert(!bytes.Equal(stored.Delta.GetData(), payload), "mixed-heads-stored-block-is-not-plaintext")
+	vAssert(stored.Encryption != nil, "mixed-heads-stored-block-carries-encryption-link")
+	if !vSymbolic() {
+		vAssert(!bytes.Contains(evBytes, payload), "native-only:mixed-heads-event-bytes-do-not-contain-plaintext")
+	}
 }
 
 // VerifH_C11_Reach — vacuity twin
